@@ -11,16 +11,25 @@ DOCUMENTED = {
     "precount-list-header-mismatch", "precount-set-header-mismatch", "black-all-container-header-mismatch",
     "zero-required-writes-nonrequired", "zero-required-rejects-union-field", "required-black-submask-applied",
     "union-field-white-unselectable", "union-field-black-unfilterable",
-    "read:union-field-white-unselectable", "read:union-field-black-unfilterable",
+    "read:union-field-white-unselectable", "read:union-field-black-unfilterable", "union-element-paths-rejected",
 }
 
 PARTIAL = [
     "precount_list: FALSE as coded (the list/set pre-count loop mutates its own bound: n=3, selected {0} => 2; n=2, nothing selected => 1; "
     "witnesses decided in Props/C13.lean and replayed by the directed unit); proved for the map variant (precount_map), for the repaired "
-    "loop (precount_list_repaired) and, for the loop as coded, under the hypothesis that the unselected indices form a suffix... see docs/C13.md",
-    "masked_write_wellformed: false today for lists/sets (witness decided); proved for Tpl.repaired / white masks (masked_write_wellformed_partial)",
-    "nonrequired_filtered_absent: false under field_mask_zero_required (the else-branch is emitted for every field; witness decided); proved when "
-    "the option is off or the template is repaired",
+    "loop (precount_list_repaired); for the loop as coded only: never announces fewer than are written, exact when nothing is filtered "
+    "(precount_list_partial)",
+    "masked_write_wellformed: false today for lists/sets (witness decided and replayed); proved as masked_write_wellformed_partial for the "
+    "repaired pre-count loop, masks whose All() is honest on every reachable sub-mask (Good: holds for white-list masks; fails for a "
+    "black-list mask at the end of a complete path, finding black-all-container-header-mismatch) and schemas whose maps have integer/string keys",
+    "masked_write_restrict / masked_read_restrict: per-level characterisations (the element/entry loops write exactly the selected elements under "
+    "their sub-masks; a rejected element/field is skipped consuming the same bytes, a passed one is read under its sub-mask; masked list read "
+    "for base-typed elements). The end-to-end statement 'a strict reader of the bytes finds restrict(mask, value)' is NOT a Lean theorem: it is "
+    "the implementation-only oracle (restrict computed from the path set in Go) plus the correspondence",
+    "nonrequired_filtered_absent: false under field_mask_zero_required (the else-branch is emitted for every field; witness decided and replayed); "
+    "proved when the option is off or the template emits the branch for required fields only",
+    "the relation between a path set and the answers of Field/Int/Str/All is property C14's theorem (queries_match_paths); C13's theorems are "
+    "stated over the answers, for every mask value",
 ]
 
 
@@ -80,6 +89,10 @@ def run(ctx):
             if want and f["key"] != want:
                 continue
             ctx.add_violation(f["key"], f["what"], f["input"], f["expected"], f["observed"])
+        print("C13 oracle failure classes: " + (", ".join(sorted(f["key"][:80] for f in fails)) or "none"))
+        new = [f["key"][:200] for f in fails if f["key"] not in DOCUMENTED]
+        if new:
+            print("C13 failure classes NOT described in docs/C13.md: " + "; ".join(new))
         if drv:
             ops = os.path.join(ctx.work, "ops.txt")
             model = ctx.run_model("tv_c13", ops)
